@@ -50,6 +50,21 @@ func runC03(r *harness.Run) {
 		"plus getfenv/setfenv programs over function/level targets; each program runs on gopher-lua and on the reference interpreter (variables are heap cells there, so closures are correct by construction); white-box: after protected calls no open upvalue may point above the live frames"
 	r.Assumptions = []string{"luaref models variables as heap cells", "instruction-level fault injection for closures is part of C05's engine"}
 	pr.runGens(gens, []string{"F-env", "F-closure", "F-nest"})
+	// open upvalues live in the value stack: the closure families once more under a registry that is
+	// reallocated while they run (starts at 128 slots, grows one slot at a time; the programs run
+	// below 5 and 6 padding frames so that growth happens while upvalues are open)
+	pg := c03Runner(r)
+	pg.opts = lua.Options{RegistrySize: 128, RegistryMaxSize: 1 << 20, RegistryGrowStep: 1}
+	pg.sigPrefix = "grow1-from128/"
+	gg := map[string]Gen{}
+	var order []string
+	for _, d := range []int{5, 6} {
+		pre := fmt.Sprintf("D%d/", d)
+		gg[pre+"F-closure"] = mapGen(genClosure(false), pre, deepFrame(d))
+		gg[pre+"F-growup"] = mapGen(genGrowUp(), pre, deepFrame(d))
+		order = append(order, pre+"F-growup", pre+"F-closure")
+	}
+	pg.runGens(gg, order)
 	runPinned(r, "C03")
 }
 
@@ -107,6 +122,10 @@ func genClosure(thorough bool) Gen {
 			{"yield-resume", false, func() []Stat { return []Stat{CallS(Dot(Name("coroutine"), "yield"), Str("y"))} }, "co-resume"},
 			{"co-error", false, func() []Stat { return []Stat{CallS(Name("error"), Str("boom"))} }, "co-error"},
 			{"co-return", false, func() []Stat { return []Stat{Do(Return(Str("r")))} }, "co-return"},
+			// a fault raised by an instruction of the capturing function itself kills the coroutine
+			{"co-fault", false, func() []Stat { return []Stat{Local1("bad", Bin("+", Name("nilv"), Num(1)))} }, "co-error"},
+			{"co-faultidx", false, func() []Stat { return []Stat{Local1("bad", Dot(Name("nilv"), "f"))} }, "co-error"},
+			{"wrap-fault", false, func() []Stat { return []Stat{Local1("bad", Bin("+", Name("nilv"), Num(1)))} }, "wrap-error"},
 			{"wrap-error", false, func() []Stat { return []Stat{CallS(Name("error"), Str("boom"))} }, "wrap-error"},
 		}
 		type site struct {
@@ -589,6 +608,50 @@ func genEnv(thorough bool) Gen {
 		for _, p := range progs {
 			p := p
 			yield(&Prog{Family: "F-env", Shape: p.name, Mk: func() *Block { return Blk(p.mk()...) }})
+		}
+	}
+}
+
+// genGrowUp: a local is captured while its function is still running (open upvalue); the function
+// then calls k levels deep with w extra locals per level (so the registry must grow while the
+// upvalue is open), and afterwards creator, closure and a sibling closure write and read the
+// variable in turn.
+func genGrowUp() Gen {
+	return func(yield func(*Prog)) {
+		for _, k := range []int{1, 2, 4, 8, 16, 32} {
+			for _, w := range []int{0, 3, 10, 40} {
+				k, w := k, w
+				yield(&Prog{Family: "F-growup", Shape: fmt.Sprintf("depth=%d/width=%d", k, w), Mk: func() *Block {
+					var locs []string
+					var vals []Expr
+					for i := 0; i < w; i++ {
+						locs = append(locs, fmt.Sprintf("w%d", i))
+						vals = append(vals, Num(float64(i)))
+					}
+					deepBody := []Stat{}
+					if w > 0 {
+						deepBody = append(deepBody, &LocalStat{Names: locs, Exprs: vals})
+					}
+					deepBody = append(deepBody, If(Bin("==", Name("n"), Num(0)), Return(Str("bottom"))), Local1("r", CallN("deep", Bin("-", Name("n"), Num(1)))), Return(Name("r")))
+					body := []Stat{
+						Local1("v", Num(1)),
+						LocalFunc("get", Func(nil, false, Return(Name("v")))),
+						LocalFunc("inc", Func(nil, false, Assign1(Name("v"), Bin("+", Name("v"), Num(10))), Return(Name("v")))),
+						Emit(Str("before"), CallN("get")),
+						Emit(Str("deep"), CallN("deep", Num(float64(k)))),
+						Assign1(Name("v"), Num(2)),
+						Emit(Str("creator-wrote"), CallN("get"), Name("v")),
+						Emit(Str("sibling-wrote"), CallN("inc"), CallN("get"), Name("v")),
+						Emit(Str("deep-again"), CallN("deep", Num(float64(k+3)))),
+						Assign1(Name("v"), Bin("+", Name("v"), Num(100))),
+						Emit(Str("after"), CallN("get"), CallN("inc"), Name("v")),
+						Return(Name("get"), Name("inc")),
+					}
+					return Blk(Local1("deep", Nil()), Assign1(Name("deep"), Func(names("n"), false, deepBody...)),
+						LocalFunc("creator", Func(nil, false, body...)),
+						Local(names("g", "i"), CallN("creator")), Emit(Str("closed"), CallN("g"), CallN("i"), CallN("g")))
+				}})
+			}
 		}
 	}
 }
